@@ -1041,3 +1041,94 @@ outer:
 	en.Rec.SetExtra("distinct_corpus_expectations", len(defs))
 	en.Done(complete)
 }
+
+// TestVerifC03Variants: the permutations that are run against the grpc-go peers are judged by the same expectation
+// as the permutation they are derived from: for every corpus case that documents alternative error codes, a result
+// carrying alternative k is accepted under each of the three marked names as well, and a code outside the list is not.
+func TestVerifC03Variants(t *testing.T) {
+	en := verifkit.NewEnum(t, "C03Variants")
+	data, err := testsuites.LoadTestSuites()
+	if err != nil {
+		t.Fatal(err)
+	}
+	suites, err := parseTestSuites(data)
+	if err != nil {
+		t.Fatal(err)
+	}
+	cfg, err := parseConfig("", nil)
+	if err != nil {
+		t.Fatal(err)
+	}
+	type row struct {
+		Name  string `json:"name"`
+		Base  string `json:"base"`
+		Codes string `json:"allowedCodes"`
+	}
+	seenDef := map[string]bool{}
+	stop := false
+	for _, mode := range []conformancev1.TestSuite_TestMode{conformancev1.TestSuite_TEST_MODE_UNSPECIFIED, conformancev1.TestSuite_TEST_MODE_CLIENT, conformancev1.TestSuite_TEST_MODE_SERVER} {
+		lib, err := newTestCaseLibrary(suites, cfg, mode)
+		if err != nil {
+			t.Fatal(err)
+		}
+		var all []*conformancev1.TestCase
+		names := make([]string, 0, len(lib.testCases))
+		for n := range lib.testCases {
+			names = append(names, n)
+		}
+		sort.Strings(names)
+		for _, n := range names {
+			all = append(all, lib.testCases[n])
+		}
+		for _, peers := range [][2]bool{{true, false}, {false, true}, {true, true}} {
+			for _, v := range lib.filterGRPCImplTestCases(all, peers[0], peers[1]) {
+				if stop {
+					break
+				}
+				baseName := v.Request.TestName
+				for _, m := range []string{"(grpc impls)/", "(grpc client impl)/", "(grpc server impl)/"} {
+					baseName = strings.Replace(baseName, m, "", 1)
+				}
+				base := lib.testCases[baseName]
+				if base == nil || base.ExpectedResponse == nil || base.ExpectedResponse.Error == nil {
+					continue
+				}
+				// one representative per distinct (expectation, allowed codes, kind of peer)
+				key := fmt.Sprintf("%v/%v/%v/%x", peers, base.OtherAllowedErrorCodes, base.ExpectedResponse.Error.Code, proto.Size(base.ExpectedResponse))
+				if len(base.OtherAllowedErrorCodes) == 0 && seenDef[key] {
+					continue
+				}
+				seenDef[key] = true
+				r := row{Name: v.Request.TestName, Base: baseName, Codes: fmt.Sprint(base.OtherAllowedErrorCodes)}
+				var viol error
+				judge := func(code conformancev1.Code) error {
+					actual := proto.Clone(base.ExpectedResponse).(*conformancev1.ClientResponseResult)
+					actual.Error.Code = code
+					results := newResults(1, &testTrie{}, &testTrie{}, nil)
+					results.assert(v.Request.TestName, v, actual)
+					results.mu.Lock()
+					defer results.mu.Unlock()
+					return results.outcomes[v.Request.TestName].actualFailure
+				}
+				allowed := map[conformancev1.Code]bool{base.ExpectedResponse.Error.Code: true}
+				for _, c := range base.OtherAllowedErrorCodes {
+					allowed[c] = true
+				}
+				for code := conformancev1.Code(1); code <= 16 && viol == nil; code++ {
+					failure := judge(code)
+					switch {
+					case allowed[code] && failure != nil:
+						viol = verifkit.Violf("variant-lenient-rejected:error-code", "%q (derived from %q, which allows %v besides %v): a result with code %v was rejected: %v", v.Request.TestName, baseName, base.OtherAllowedErrorCodes, base.ExpectedResponse.Error.Code, code, failure)
+					case !allowed[code] && failure == nil:
+						viol = verifkit.Violf("variant-deviation-missed:error-code", "%q (derived from %q, which allows %v besides %v): a result with code %v was accepted", v.Request.TestName, baseName, base.OtherAllowedErrorCodes, base.ExpectedResponse.Error.Code, code)
+					}
+				}
+				en.Rec.Observe(r, []string{fmt.Sprintf("client-grpc:%v", peers[0]), fmt.Sprintf("server-grpc:%v", peers[1]), fmt.Sprintf("alternatives:%d", len(base.OtherAllowedErrorCodes))}, len(base.OtherAllowedErrorCodes) > 0)
+				if viol != nil && en.Fail(r, viol) {
+					stop = true
+				}
+			}
+		}
+	}
+	en.Done(true)
+}
